@@ -6,11 +6,11 @@
 package qbft
 
 import (
-	"strings"
 	"fmt"
 	"hash/fnv"
 	"os"
 	"sort"
+	"strings"
 	"testing"
 
 	"pgregory.net/rapid"
@@ -54,7 +54,7 @@ func TestQBFTRandom(t *testing.T) {
 		vstat.Rule("C03", ruleC03)
 	}
 	vstat.Assume("message sources are authenticated by the transport (C05): the adversary can only originate messages under its own identities, nested justifications may be any observed honest message")
-	vstat.Assume("Compare is the production default (returns nil at once); FIFOLimit = 100 as instance.RecvBufferSize")
+	vstat.Assume("Compare is the production default (returns nil at once) in three cases of four; in the fourth the opt-in comparison is on and every honest member rejects a drawn set of values (a pure function of member and value, answered at once; a comparison that blocks until local data arrives is not modelled); FIFOLimit = 100 as instance.RecvBufferSize")
 	maxEv := vstat.EnvInt("VERIF_MAXEV", 300)
 	rapid.Check(t, func(rt *rapid.T) {
 		rapid.SyncTest(rt, func(rt *rapid.T) {
@@ -121,7 +121,21 @@ type fixedAdversary func(rt *rapid.T, s *qbftsim.Sim, a *adversary, step int) bo
 func runRandom(rt *rapid.T, cfg caseCfg, fixed fixedAdversary) outcome {
 	n := cfg.n
 	leader := func(_ int64, round, proc int64) bool { return (cfg.offset+round)%int64(n) == proc }
-	s := qbftsim.New(n, 7, leader, cfg.byz, qbftsim.Hooks{})
+	// The opt-in comparison of the leader's proposal with the member's local data (Definition.Compare): in one
+	// case of four the feature is on and honest members reject some values. The verdict is a pure function of
+	// (member, value) as the production comparison is (same proposal, same local data, same verdict).
+	hooks := qbftsim.Hooks{}
+	compareOn := rapid.IntRange(0, 3).Draw(rt, "compareFeature") == 0
+	if compareOn {
+		verdict := make([][5]bool, n)
+		for i := range verdict {
+			for k := range verdict[i] {
+				verdict[i][k] = rapid.IntRange(0, 2).Draw(rt, "compareFails") == 0
+			}
+		}
+		hooks.CompareFails = func(p *qbftsim.Proc, m *qbftsim.M) bool { return verdict[p.ID][uint64(m.Val)%5] }
+	}
+	s := qbftsim.New(n, 7, leader, cfg.byz, hooks)
 	defer s.Stop()
 
 	var hon, byzs []int64
@@ -132,7 +146,7 @@ func runRandom(rt *rapid.T, cfg caseCfg, fixed fixedAdversary) outcome {
 			hon = append(hon, i)
 		}
 	}
-	adv := &adversary{s: s, byz: byzs, hon: hon, vals: []int64{901, 902}}
+	adv := &adversary{s: s, byz: byzs, hon: hon, vals: []int64{901, 902}, compareOn: compareOn}
 
 	// Some honest processes start late / get their input late / never.
 	var notStarted, noInput []int64
@@ -466,6 +480,7 @@ func runRandom(rt *rapid.T, cfg caseCfg, fixed fixedAdversary) outcome {
 		}
 	}
 	out.twoPrepared = len(pvs) > 1
+	compareFailed := s.CompareFailures > 0
 	s.Unlock()
 	seenAdv := map[*qbftsim.M]bool{}
 	for _, d := range delivered {
@@ -500,7 +515,7 @@ func runRandom(rt *rapid.T, cfg caseCfg, fixed fixedAdversary) outcome {
 		cls("decided_any", len(out.decisions) > 0), cls("decided_all", allDecided(s, hon)),
 		cls("round_change", out.roundChanges > 0), cls("adv_accepted", out.advAccepted > 0),
 		cls("byzantine", len(byzs) > 0), cls("via_decided_msg", out.viaDecided), cls("decided_round>1", out.lateRound),
-		cls("reproposed_prepared", out.reproposed), cls("drop_or_dup", out.dropsDups > 0), cls("profile_orderly", orderly), cls("profile_staged", staged), cls("two_values_prepared_by_honest", out.twoPrepared), cls("stale_reproposal_attempted", out.staleAttempt), cls("honest_msg_unjust(observation)", honestUnjust > 0), fmt.Sprintf("n=%d", n))
+		cls("reproposed_prepared", out.reproposed), cls("drop_or_dup", out.dropsDups > 0), cls("profile_orderly", orderly), cls("profile_staged", staged), cls("two_values_prepared_by_honest", out.twoPrepared), cls("stale_reproposal_attempted", out.staleAttempt), cls("honest_msg_unjust(observation)", honestUnjust > 0), cls("compare_feature_on", compareOn), cls("compare_failed_at_some_member", compareFailed), cls("decided_in_a_case_with_compare_failure", compareFailed && len(out.decisions) > 0), fmt.Sprintf("n=%d", n))
 	vstat.Count("adv_sent", int64(out.advSent))
 	vstat.Count("adv_accepted_total", int64(out.advAccepted))
 	kind := ""
